@@ -59,6 +59,17 @@ pub struct Dyadic {
     pub e: i32,
 }
 
+thread_local! {
+    /// widest odd mantissa (in bits) produced by any dyadic operation since the last reset
+    pub static DYADIC_MAXBITS: std::cell::Cell<u32> = const { std::cell::Cell::new(0) };
+}
+pub fn dyadic_reset_bits() {
+    DYADIC_MAXBITS.with(|c| c.set(0));
+}
+pub fn dyadic_max_bits() -> u32 {
+    DYADIC_MAXBITS.with(|c| c.get())
+}
+
 impl Dyadic {
     fn norm(mut m: i128, mut e: i32) -> Dyadic {
         if m == 0 {
@@ -68,6 +79,12 @@ impl Dyadic {
             m >>= 1;
             e += 1;
         }
+        let bits = 128 - m.unsigned_abs().leading_zeros();
+        DYADIC_MAXBITS.with(|c| {
+            if bits > c.get() {
+                c.set(bits)
+            }
+        });
         Dyadic { m, e }
     }
     /// Some(f) if exactly representable as a normal f64
@@ -278,5 +295,102 @@ impl Jet<f64> {
     }
     pub fn max_abs(&self) -> f64 {
         self.c.iter().fold(0.0f64, |m, a| m.max(a.abs()))
+    }
+}
+
+/// Exact rational (i128 / i128, normalised, den > 0). Panics on overflow.
+#[derive(Clone, Debug, PartialEq, Eq)]
+pub struct Rat {
+    pub n: i128,
+    pub d: i128,
+}
+
+fn gcd(mut a: i128, mut b: i128) -> i128 {
+    a = a.abs();
+    b = b.abs();
+    while b != 0 {
+        let t = a % b;
+        a = b;
+        b = t;
+    }
+    a
+}
+
+impl Rat {
+    pub fn new(n: i128, d: i128) -> Rat {
+        assert!(d != 0, "rational with zero denominator");
+        let g = gcd(n, d).max(1);
+        let s = if d < 0 { -1 } else { 1 };
+        Rat { n: s * n / g, d: s * d / g }
+    }
+    /// Some(x) if the value is a dyadic rational whose odd mantissa has at most `bits` bits
+    pub fn to_float_exact(&self, bits: u32) -> Option<f64> {
+        if self.n == 0 {
+            return Some(0.0);
+        }
+        if self.d & (self.d - 1) != 0 {
+            return None;
+        }
+        let mut m = self.n;
+        let mut e = -(self.d.trailing_zeros() as i32);
+        while m & 1 == 0 {
+            m >>= 1;
+            e += 1;
+        }
+        let w = 128 - m.unsigned_abs().leading_zeros();
+        if w > bits || !(-100..=100).contains(&e) {
+            return None;
+        }
+        Some(m as f64 * (2.0f64).powi(e))
+    }
+}
+
+impl Sc for Rat {
+    fn zero() -> Self {
+        Rat { n: 0, d: 1 }
+    }
+    fn one() -> Self {
+        Rat { n: 1, d: 1 }
+    }
+    fn from_f64(x: f64) -> Self {
+        let dy = Dyadic::from_f64(x);
+        if dy.e >= 0 {
+            assert!(dy.e < 100);
+            Rat::new(dy.m.checked_shl(dy.e as u32).unwrap(), 1)
+        } else {
+            assert!(dy.e > -120);
+            Rat::new(dy.m, 1i128 << (-dy.e) as u32)
+        }
+    }
+    fn to_f64(&self) -> f64 {
+        self.n as f64 / self.d as f64
+    }
+    fn add(&self, o: &Self) -> Self {
+        let g = gcd(self.d, o.d).max(1);
+        let l = (self.d / g).checked_mul(o.d).expect("rat overflow");
+        let a = self.n.checked_mul(o.d / g).expect("rat overflow");
+        let b = o.n.checked_mul(self.d / g).expect("rat overflow");
+        Rat::new(a.checked_add(b).expect("rat overflow"), l)
+    }
+    fn sub(&self, o: &Self) -> Self {
+        self.add(&o.neg())
+    }
+    fn mul(&self, o: &Self) -> Self {
+        let g1 = gcd(self.n, o.d).max(1);
+        let g2 = gcd(o.n, self.d).max(1);
+        Rat::new(
+            (self.n / g1).checked_mul(o.n / g2).expect("rat overflow"),
+            (self.d / g2).checked_mul(o.d / g1).expect("rat overflow"),
+        )
+    }
+    fn div(&self, o: &Self) -> Self {
+        assert!(o.n != 0, "rat division by zero");
+        self.mul(&Rat::new(o.d, o.n))
+    }
+    fn neg(&self) -> Self {
+        Rat { n: -self.n, d: self.d }
+    }
+    fn is_zero(&self) -> bool {
+        self.n == 0
     }
 }
